@@ -84,6 +84,12 @@ def run(ck):
     from .c15 import t3_never_emptied, t4_eviction
     ck.run_rule(t3_never_emptied)
     ck.run_rule(t4_eviction)
+    # a shortcut that answers the root without searching it leaves the `go` without its bestmove (C17's D1-D3); the move that is printed
+    # and the moves accepted by `position` are legal because every candidate passes the king-safety filter (C01's G4)
+    from .c17 import d1_d2_d3
+    ck.run_rule(d1_d2_d3)
+    from .c01 import g4_legality_filter
+    ck.run_rule(g4_legality_filter)
 
 
 def _shape(ck, rule):
